@@ -39,9 +39,30 @@ def run(run, P):
                         else:
                             others.append((ev, fp))
         pairs = set(fp for _e, fp in restores) & set(fp for _e, fp in others)
+        name = f['name']
+        # saved, overwritten, and the saved copy never looked at again: the restore is missing altogether
+        for v, fp in sorted(saves.items()):
+            if fp in set(x[1] for x in others) and fp not in set(x[1] for x in restores):
+                reads = 0
+                for b, ev in P.events(f):
+                    t = ev['e']
+                    part = t['r'] if t.get('k') == 'asg' else t
+                    if t.get('k') == 'decl':
+                        continue
+                    reads += sum(1 for x in walk(part) if isinstance(x, dict) and x.get('k') == 'var' and ap(x) == v)
+                for b in f['blocks']:
+                    c = (b.get('term') or {}).get('cond')
+                    if c is not None:
+                        reads += sum(1 for x in walk(c) if isinstance(x, dict) and x.get('k') == 'var' and ap(x) == v)
+                if reads == 0:
+                    oev = [x[0] for x in others if x[1] == fp][0]
+                    n += 1
+                    run.oblige('R-SAVE-RESTORE', False, '%s:saved-copy-used' % name)
+                    run.violation('R-SAVE-RESTORE', name, oev['loc'], 'parked-field-never-restored',
+                                  '%s() saves a field in a local, overwrites the field here and never reads the saved copy again: the restore is missing -- the shared object '
+                                  'keeps the temporary value' % name, [])
         if not pairs:
             continue
-        name = f['name']
         restores = [x for x in restores if x[1] in pairs]
         others = [x for x in others if x[1] in pairs]
 
